@@ -14,7 +14,8 @@
 (*   cfg.fields     top-level field names                                  *)
 (* A sample value is the tuple of the canonical value ids of its leaves,   *)
 (* aligned with cfg.schema (the harness maps every distinct normalised     *)
-(* content to one id, so that TLC compares ids).                           *)
+(* content to one id >= 1, so that TLC compares ids); id 0 stands for a     *)
+(* leaf the sample does not have (a sample may have no field at all).      *)
 (*                                                                         *)
 (* `store` is what was written (ghost truth, built from accepted calls     *)
 (* only); `mfiles` is what the files hold.  Every reader answer is         *)
@@ -127,6 +128,13 @@ RFWrite(tok) ==
   /\ last' = Act("RFWrite", 0, NoW, NoQ, {})
   /\ UNCHANGED <<cfg, store, mfiles, readers>>
 
+\* Time passes: every file becomes older than the channel's file cadence (a reader treats a file it cannot read
+\* differently when the file is old - the only place where a reader may touch the tree).  Only the tree's hash changes.
+TimePasses(tok) ==
+  /\ disk' = tok /\ resp' = "ok"
+  /\ last' = Act("TimePasses", 0, NoW, NoQ, {})
+  /\ UNCHANGED <<cfg, store, mfiles, readers, rf>>
+
 (***************************************************************************)
 (* Readers.  kind "md": DigitalMetadataReader; kind "rf": DigitalRFReader  *)
 (* on the tree that holds the channel (it reads the same metadata through  *)
@@ -161,7 +169,11 @@ KeysAlg(q) == IF q.method = "ffill" THEN FillKey(q.a) \o KeysRange(q.a + 1, q.b)
 SelIdx(cols) == SelectSeq([f \in 1..NL |-> f], LAMBDA f : cols = <<>> \/ cfg.schema[f].top \in ToSet(cols))
 SelNames(cols) == LET s == SelIdx(cols) IN [i \in 1..Len(s) |-> cfg.schema[s[i]].name]
 SelIds(v, cols) == LET s == SelIdx(cols) IN [i \in 1..Len(s) |-> v[s[i]]]
-Rows(keys, cols) == [i \in 1..Len(keys) |-> <<keys[i], SelNames(cols), SelIds(store[keys[i]], cols)>>]
+NoLeaf == 0
+SelIdxOf(v, cols) == SelectSeq(SelIdx(cols), LAMBDA f : v[f] # NoLeaf)
+Rows(keys, cols) == [i \in 1..Len(keys) |->
+                       LET v == store[keys[i]]  s == SelIdxOf(v, cols) IN
+                       <<keys[i], [n \in 1..Len(s) |-> cfg.schema[s[n]].name], [n \in 1..Len(s) |-> v[s[n]]]>>]
 
 QueryOK(q) == /\ q.a <= q.b /\ InRange(q.a) /\ InRange(q.b) /\ q.method \in {"none", "ffill"}
               /\ ToSet(q.cols) \subseteq {cfg.schema[f].top : f \in 1..NL}
